@@ -3,7 +3,11 @@
    round functions as the code runs them (with the "remote index went backwards" reset, and for ACL
    objects the fetch of the upserts by id); the exact conditions under which an equal secondary is
    not written to, with witnesses where the unconditional statement fails. *)
-From Verif Require Import Base.Prelude Repl.Model Repl.Order Repl.WalkProofs Repl.RoundProofs.
+From Verif Require Import Base.Prelude.
+From Verif Require Import Repl.Model.
+From Verif Require Import Repl.Order.
+From Verif Require Import Repl.WalkProofs.
+From Verif Require Import Repl.RoundProofs.
 From Coq Require Import Sorting.Permutation.
 
 (* ------------------------------------------------------------------ Go string order *)
@@ -185,7 +189,11 @@ Section Config.
     { intros l. apply (filter_true l). }
     pose proof (walk_is_set_difference cfg_eqb cfg_ltb cfg_is_empty cfg_same_hash
                   cfg_eqb_spec cfg_ltb_irrefl cfg_ltb_trans cfg_ltb_total last local remote) as W.
-    fold cfg_live in W. rewrite !Hall in W. unfold cfg_diff. rewrite (W Hl Hr). f_equal.
+    fold cfg_live in W. rewrite !Hall in W. unfold cfg_diff. rewrite (W Hl Hr).
+    assert (Hne : forall l : list cfg_item, nempty cfg_is_empty l = 0%N).
+    { intros l. unfold nempty. replace (filter (fun x => negb (live cfg_is_empty x)) l) with (@nil cfg_item); [reflexivity|].
+      symmetry. apply filter_nil_iff. intros x _. reflexivity. }
+    rewrite !Hne. reflexivity.
   Qed.
 
   Theorem cfg_round_converges stamp ri last (remote st : list cfg_item) :
@@ -352,10 +360,12 @@ Proof.
   - vm_compute. repeat constructor; cbn; intuition discriminate.
   - vm_compute. repeat constructor; cbn; intuition discriminate.
   - intros y Hy. cbn in Hy. intuition (subst; reflexivity).
+  - replace (effective_last 8 5) with 5%N by (vm_compute; reflexivity).
+    intros x y Hx Hy Hid Hm. cbn in Hx, Hy.
+    destruct Hx as [<-|[<-|[<-|[<-|[]]]]], Hy as [<-|[<-|[<-|[]]]]; cbn in *; try congruence; try lia.
   - intros x y Hx Hy Hid Hm. cbn in Hx, Hy.
-    destruct Hx as [<-|[<-|[<-|[<-|[]]]]], Hy as [<-|[<-|[<-|[]]]]; cbn in *; try discriminate; try reflexivity; lia.
-  - intros x y Hx Hy Hid Hm. cbn in Hx, Hy.
-    destruct Hx as [<-|[<-|[<-|[<-|[]]]]], Hy as [<-|[<-|[<-|[]]]]; cbn in *; try discriminate; reflexivity.
+    destruct Hx as [<-|[<-|[<-|[<-|[]]]]], Hy as [<-|[<-|[<-|[]]]]; cbn in *; try congruence;
+      vm_compute in Hm; congruence.
   - vm_compute. reflexivity.
   - vm_compute. reflexivity.
 Qed.
